@@ -16,7 +16,11 @@ EXPLANATION = ("S1-S12 every request builder is abstractly evaluated (path-sensi
 TRUSTED = ['lber serialises shapes faithfully (C07)', 'RFC 4511 shapes transcribed in rules/props/C02.py']
 UNDECIDED = ['byte-level serialisation (C07)', 'arbitrary value sizes']
 ASSUMPTIONS = []
-SHARED = [('C08', ('P3.', 'P4.', 'P1.entry'), 'S16.filter'), ('C07', ('B1.', 'B2m.', 'B4.encoder', 'B5.'), 'S17.ber-writer')]      # the Filter of a SearchRequest is built by the filter compiler's semantic actions
+SHARED = [('C08', ('P3.', 'P4.', 'P1.entry'), 'S16.filter'), ('C07', ('B1.', 'B2m.', 'B4.encoder', 'B5.'), 'S17.ber-writer'),      # the Filter of a SearchRequest is built by the filter compiler's semantic actions
+          # the one place where the library itself attaches controls to requests the caller did not spell out: every follow-up Search of
+          # the paging adapter carries exactly the controls saved when the search started plus one paging control, and issuing it leaves
+          # the saved controls / options as they were (nothing leaks from one exchange into the next)
+          ('C16', ('A2.follow-up-controls', 'A2.saved-state-unchanged'), 'M5.paged-follow-up-carries-the-saved-controls')]
 
 SELF = ('param', 'self')
 LDAP = 'ldap3::ldap::Ldap::'
